@@ -28,3 +28,9 @@ package types
 //@ func (k DistrKeeper) AllocateTokensToValidator
 //@ trusted
 //@ modifies Other
+
+//@ func (k BankKeeper) SendCoins
+//@ trusted
+//@ modifies Bank
+//@ ensures err == nil ==> Bank == bankA2A(old(Bank), from, to, amt)
+//@ ensures err != nil ==> Bank == old(Bank)
